@@ -18,8 +18,13 @@ class StubModel:
         return self.costs[name]
 
 
-def _names(n):
-    return ['metric%d' % i for i in range(n)]
+_ORDERS = {'user': ['params', 'ops', 'latency', 'energy'],      # the order a user writes them in (not sorted in any direction): strength i belongs to the
+           'sorted': ['a_metric', 'b_metric', 'c_metric', 'd_metric'],    # i-th key of the dictionary AS GIVEN
+           'reversed': ['size', 'ops', 'latency', 'energy']}
+
+
+def _names(n, order='user'):
+    return _ORDERS[order][:n]
 
 
 def h_base(H):
@@ -48,16 +53,16 @@ def h_ctor(H, n, m, with_loss, with_strengths):
     H.ensure('duccio-init:raises-exactly-on-bad-arguments', raised == expect)
 
 
-def _setup(H, n, suffix=''):
-    names = _names(n)
+def _setup(H, n, suffix='', order='user'):
+    names = _names(n, order)
     costs = {nm: H.tensor('cost%s_%d' % (suffix, i), ()) for i, nm in enumerate(names)}
     targets = {nm: H.tensor('target_%d' % i, ()) for i, nm in enumerate(names)}
     return names, costs, targets
 
 
-def h_given_strengths(H, n):
+def h_given_strengths(H, n, order='user'):
     """positive final strengths given; epoch >= 0, n_epochs >= 1 arbitrary integers"""
-    names, costs, targets = _setup(H, n)
+    names, costs, targets = _setup(H, n, '', order)
     strengths = tuple(H.tensor('strength_%d' % i, ()) for i in range(n))
     epoch, n_epochs = H.int('epoch'), H.int('n_epochs')
     H.assume(H.and_(epoch >= 0, n_epochs >= 1))
@@ -181,7 +186,8 @@ HARNESSES = [
          thorough=[dict(n=n, m=m, with_loss=a, with_strengths=b) for n in (1, 2, 3) for m in (1, 2, 3) for a in (True, False) for b in (True, False)]),
     dict(name='duccio-given-strengths', fn='h_given_strengths', property='C19',
          functions=['plinio/regularizers/duccio.py::DUCCIO.__init__', 'plinio/regularizers/duccio.py::DUCCIO.__call__'],
-         quick=[dict(n=n) for n in (1, 2, 3)], thorough=[dict(n=n) for n in (1, 2, 3, 4)]),
+         quick=[dict(n=n) for n in (1, 2, 3)] + [dict(n=3, order=o) for o in ('sorted', 'reversed')],
+         thorough=[dict(n=n, order=o) for n in (1, 2, 3, 4) for o in ('user', 'sorted', 'reversed')]),
     dict(name='duccio-monotone', fn='h_monotone_cost', property='C19', functions=['plinio/regularizers/duccio.py::DUCCIO.__call__'],
          quick=[dict(n=n) for n in (1, 2)], thorough=[dict(n=n) for n in (1, 2, 3)]),
     dict(name='duccio-schedule', fn='h_schedule', property='C19', functions=['plinio/regularizers/duccio.py::DUCCIO.__call__'],
